@@ -120,6 +120,11 @@ func c20Run(ctx *core.Ctx) {
 		core.Strings([]string{"temp", "perm"}, 5, func(parts []string) {
 			emit(c20Case{Kind: "accept", Accept: append([]string{}, parts...)})
 			emit(c20Case{Kind: "accept", Accept: append([]string{}, parts...), Direct: true}) // end with Shutdown instead of Close
+			if len(parts) <= 2 {
+				// the closed listener keeps reporting temporary Accept errors: Serve must still return
+				emit(c20Case{Kind: "accept", Accept: append([]string{}, parts...), LErr: true})
+				emit(c20Case{Kind: "accept", Accept: append([]string{}, parts...), Direct: true, LErr: true})
+			}
 		})
 		// connections that are still in their (implicit) TLS handshake, or idle, when Close / Shutdown fires
 		for _, st := range []string{"tls-stalled", "tls-half", "plain-idle", "plain-greeted", "starttls-stalled", "starttls-half", "just-accepted", "accepted-at-close", "write-blocked"} {
@@ -154,6 +159,13 @@ func c20Run(ctx *core.Ctx) {
 				}
 			}
 		}
+		// a backend whose Logout takes its time (it may well wait for something that another
+		// connection has to do): meanwhile other connections are accepted, greeted and served
+		for _, end := range []string{"disconnect", "quit", "errors"} {
+			for rep := 0; rep < 4; rep++ {
+				emit(c20Case{Kind: "slowlogout", Callback: end, Seed: uint64(rep)})
+			}
+		}
 		for i := 0; i < nReplay; i++ {
 			emit(c20Case{Kind: "replay", Seed: uint64(i)})
 		}
@@ -179,6 +191,89 @@ func c20Exec(ctx *core.Ctx, c c20Case) {
 		c20Expired(ctx, c)
 	case "listeners":
 		c20Listeners(ctx, c)
+	case "slowlogout":
+		c20SlowLogout(ctx, c)
+	}
+}
+
+// c20SlowLogout: connection A ends (peer gone / QUIT / too many errors) and its session's Logout
+// is held on a gate. While it is held, connection B must be accepted, greeted and served to its
+// QUIT: one connection's teardown is not a server-wide critical section. A B that is not greeted
+// is judged from the goroutine table (its handler parked on a lock), not from the time.
+func c20SlowLogout(ctx *core.Ctx, c c20Case) {
+	if gaveUp("c20slowlogout") {
+		ctx.Add("cases_skipped_after_an_established_hang", 1)
+		return
+	}
+	ctx.Eval(fmt.Sprintf("slowlogout|%s|%d", c.Callback, c.Seed), true)
+	rig := newRig(modeSMTP, nil)
+	gate := rec.NewGate()
+	defer gate.OpenAll()
+	rig.BE.H.Logout = func(sess int) error {
+		if sess == 1 {
+			gate.Wait("logout")
+		}
+		return nil
+	}
+	a := rig.Dial()
+	a.SendStr("EHLO a.test\r\n")
+	a.ReadUntilStall()
+	switch c.Callback {
+	case "quit":
+		a.SendStr("QUIT\r\n")
+	case "errors":
+		a.SendStr("FOO1\r\nFOO2\r\nFOO3\r\nFOO4\r\n")
+	default:
+		a.Close()
+	}
+	fail := func(sig, msg string, extra []string) {
+		ctx.Violate(sig, msg+fmt.Sprintf(" [connection A ended by %s]", c.Callback), c, append(rig.Log.Strings(40), extra...))
+	}
+	if !gate.WaitParked("logout") {
+		a.Close()
+		rig.CloseBounded()
+		ctx.Inconclusive("C20 slowlogout: Logout was not reached")
+		return
+	}
+	b := rig.Dial()
+	b.Raw.SetWatchdog(3 * time.Second)
+	g, err := b.ReadReply()
+	if err != nil || g.Code != 220 {
+		giveUp("c20slowlogout")
+		var parked []string
+		for _, gr := range detect.LibGoroutines(detect.Snapshot()) {
+			if (strings.Contains(gr.Raw, "(*Server).handleConn") || strings.Contains(gr.Raw, "(*Server).Serve")) && (strings.Contains(gr.State, "sync.Mutex") || strings.Contains(gr.State, "semacquire") || strings.Contains(gr.State, "sync.RWMutex")) {
+				parked = append(parked, gr.Summary())
+			}
+		}
+		gate.OpenAll()
+		a.Close()
+		b.Close()
+		rig.CloseBounded()
+		if len(parked) > 0 {
+			fail("C20:connection-stalled-by-another-connections-logout", fmt.Sprintf("while the Logout of connection A is in progress a new connection is not greeted (%v): Serve / its handler is parked on a lock", err), parked)
+		} else {
+			ctx.Inconclusive("C20 slowlogout: second connection not greeted, no parked handler found")
+		}
+		return
+	}
+	b.SendStr("EHLO b.test\r\nNOOP\r\nQUIT\r\n")
+	rs, _ := b.ReadAll()
+	gate.OpenAll()
+	a.Close()
+	b.Close()
+	fin := rig.Finish()
+	if codes(rs) != "250,250,221" {
+		fail("C20:connection-stalled-by-another-connections-logout", fmt.Sprintf("while the Logout of connection A is in progress connection B's EHLO, NOOP, QUIT were answered %s", codes(rs)), nil)
+		return
+	}
+	if !fin {
+		ctx.Inconclusive("C20 slowlogout: Finish watchdog")
+		return
+	}
+	ctx.Add("connections_served_while_another_logout_was_in_progress", 1)
+	if ctx.WantSample("slowlogout") {
+		ctx.Sample("slowlogout", map[string]any{"a_ended_by": c.Callback, "b_replies": codes(rs)})
 	}
 }
 
@@ -966,11 +1061,12 @@ func c20Concurrent(ctx *core.Ctx, c c20Case) {
 }
 
 func c20Accept(ctx *core.Ctx, c c20Case) {
-	ctx.Eval(fmt.Sprintf("accept|%v|%v", c.Accept, c.Direct), true)
+	ctx.Eval(fmt.Sprintf("accept|%v|%v|%v", c.Accept, c.Direct, c.LErr), true)
 	l := rec.NewLog()
 	srv := smtp.NewServer(rec.NewBackend(l, rec.Plain))
 	srv.ErrorLog = l
 	ml := memconn.NewListener()
+	ml.TempAfterClose = c.LErr
 	serveDone := make(chan error, 1)
 	firstPerm := -1
 	for i, a := range c.Accept {
